@@ -13,6 +13,7 @@ Request families (decoded strictly from the request line):
   ``FortranISOCWrapperTransformation``, the C kernel is compiled with gcc, wrapper + a Fortran driver with gfortran, linked and run
   on every input set; results are compared with the reference interpreter.
 """
+import functools
 import os
 import re
 import shutil
@@ -31,7 +32,7 @@ from . import c36 as G          # generator of transpilable routines, static typ
 GCC = '/usr/bin/gcc'
 h = G.h
 
-TGEN_C = dict(clamp_subscripts=False, p_lower=0.35, p_step=0.3, p_int=0.05, p_mod=0.08, p_intdiv=0.1, p_pow=0.0,
+TGEN_C = dict(clamp_subscripts=False, p_lower=0.35, p_step=0.3, p_int=0.01, p_mod=0.06, p_intdiv=0.1, p_pow=0.0,
               p_local_arrays=0.0, int_calls=False)
 
 
@@ -96,8 +97,25 @@ def known_mod_factor(prog):
                and G.ex_type(e[3], dm) == 'int' for e in G.all_exprs(prog))
 
 
+def known_loop_bound_modified(prog):
+    """a variable occurring in the bounds or step of a DO loop is assigned in the loop body: the generated `for` re-evaluates the
+    bound on every iteration, Fortran fixes the trip count at entry"""
+    def names(e):
+        return {str(x[1]) for x in G.sub_exprs(e) if h(x) in ('v', 'idx')}
+    for s in G.all_stmts(G.unit_of(prog)[4]):
+        if h(s) == 'do':
+            used = set().union(*[names(e) for e in (s[2], s[3], s[4]) if h(e)])
+            for t in G.all_stmts(s[5]):
+                if h(t) == 'assign' and str(t[1][1]) in used:
+                    return True
+                if h(t) == 'do' and str(t[1]) in used:
+                    return True
+    return False
+
+
 PROG_CLASSES = [
     ('c-int-cast', known_int_cast),
+    ('c-loop-bound-modified', known_loop_bound_modified),
     ('c-mod-unparenthesised', known_mod_factor),
     ('c-nested-subscript', known_nested_subscript),
     ('c-integer-intrinsic-double', known_int_as_double),
@@ -167,6 +185,11 @@ def _first_error(out):
 # ====================================================================== subscript family
 
 def cindex_real(bounds, idx):
+    return _cindex_real(tuple(bounds), tuple(idx))
+
+
+@functools.lru_cache(maxsize=4096)
+def _cindex_real(bounds, idx):
     """value of the flat subscript the real pipeline generates for a(i1..ik), a declared with `bounds`"""
     from loki.transformations.transpile import FortranCTransformation
     from loki import FindNodes, Assignment
@@ -204,6 +227,7 @@ def c_trunc_div(a, b):
     return q if (a < 0) == (b < 0) else -q
 
 
+@functools.lru_cache(maxsize=None)
 def cgen_ops():
     """texts the real cgen prints for i / j, mod(i, j), mod(x, y), mod(i, 2.0)"""
     from loki.backend.cgen import cgen
@@ -239,6 +263,7 @@ def gcc_divmod(R=12):
 
 # ====================================================================== argument passing table
 
+@functools.lru_cache(maxsize=None)
 def pass_table():
     """[(is_array, intent, 'value'|'pointer', iface VALUE)] from the really generated kernel and wrapper of six probe routines"""
     from loki.transformations.transpile import FortranCTransformation, FortranISOCWrapperTransformation
@@ -262,7 +287,7 @@ def pass_table():
             rows.append((arr, intent, 'pointer' if '*' in m.group(1) else 'value',
                          bool(re.search(r'VALUE\s*::\s*v\b', (d / f'{name}_fc.F90').read_text(), re.I))))
     shutil.rmtree(d, ignore_errors=True)
-    return rows
+    return tuple(rows)
 
 
 def gen_tables():
@@ -281,6 +306,44 @@ def gen_tables():
         "/-- `FortranCTransformation`'s intrinsic function map -/",
         'def functionMap : List (String × String) := [' + ', '.join(f'("{k}", "{v}")' for k, v in fmap.items()) + ']',
         'end LokiModel.C35.Tables']) + '\n'
+
+
+# ====================================================================== ABI of default REAL
+
+ABI_SRC = '''
+subroutine dr(x, y)
+  implicit none
+  real, intent(in) :: x
+  real, intent(out) :: y
+  y = x + 1.0
+end subroutine dr
+'''
+
+
+def abi_default_real():
+    """translate the fixed routine `y = x + 1.0` with default REAL dummies, build WITHOUT -fdefault-real-8, call through the
+    wrapper with x = 2.5; returns the printed y as Fraction, or an error text"""
+    from loki import Subroutine
+    from loki.transformations.transpile import FortranCTransformation, FortranISOCWrapperTransformation
+    d = Path(tempfile.mkdtemp(prefix='abi_', dir=str(scratch())))
+    try:
+        r = Subroutine.from_source(ABI_SRC)
+        FortranCTransformation().apply(source=r, path=d)
+        FortranISOCWrapperTransformation().apply(source=r, path=d)
+        (d / 'main.f90').write_text('program m\n  use dr_fc_mod, only: dr_fc\n  implicit none\n  real :: x, y\n  x = 2.5\n  y = -1.0\n'
+                                    '  call dr_fc(x, y)\n  write(*,\'(ES25.17E3)\') y\nend program m\n')
+        for cmd in ([GCC, '-std=c99', '-c', 'dr_c.c', '-o', 'dr_c.o'], [fir.GFORTRAN, '-c', 'dr_fc.F90'],
+                    [fir.GFORTRAN, 'main.f90', 'dr_fc.o', 'dr_c.o', '-lm', '-o', 'a.x']):
+            rc, out = sh(cmd, d)
+            if rc != 0:
+                return 'build: ' + _first_error(out)
+        rc, out = sh(['./a.x'], d)
+        try:
+            return Fraction(float(out.strip()))
+        except ValueError:
+            return 'run: ' + out[:100]
+    finally:
+        shutil.rmtree(d, ignore_errors=True)
 
 
 # ====================================================================== the property
@@ -326,7 +389,7 @@ class C35(Prop):
         return {'LokiModel/Generated/C35Tables.lean': gen_tables()}
 
     def classes(self):
-        return [c for c, _ in PROG_CLASSES]
+        return [c for c, _ in PROG_CLASSES] + ['c-default-real-double']
 
     # ---------------------------------------------------------------- generation
     def gen(self, rng, tier):
@@ -356,7 +419,7 @@ class C35(Prop):
         yield Case([A('passby')], stream='passby')
         if tier == 'quick':
             return
-        n_prog = {'thorough': 110, 'search': 40}.get(tier, 0)
+        n_prog = {'thorough': 90, 'search': 40}.get(tier, 0)
         reqs = []
         for k in range(n_prog):
             cfg = dict(TGEN_C)
@@ -419,6 +482,8 @@ class C35(Prop):
         if op == 'prog':
             prog, inputs = self.dec_prog(req)
             return [A('ok')] + [fir.result_to_sexp(fir.interp(prog, inp)) for inp in inputs]
+        if op == 'abi':
+            return [A('ok'), A('abi')]
         raise ValueError(op)
 
     # ---------------------------------------------------------------- direct oracle
@@ -459,6 +524,14 @@ class C35(Prop):
             return out
         if op == 'prog':
             return self.oracle_prog(req)
+        if op == 'abi':
+            if not (os.path.exists(GCC) and os.path.exists(fir.GFORTRAN)):
+                return []
+            y = abi_default_real()
+            if y != Fraction(7, 2):
+                return [Failure(f'default REAL dummies, y = x + 1.0 with x = 2.5 through the ISO-C wrapper (no -fdefault-real-8): '
+                                f'y = {y}, expected 7/2 (the C kernel declares double, the interface REAL)', 'c-default-real-double')]
+            return []
         raise ValueError(op)
 
     def oracle_prog(self, req):
